@@ -23,7 +23,11 @@ def make_case(rr, doc, label="test"):
         return c
     rule = built[1]
     term = enc.enc_rule(rule)
+    doc_before = enc.enc_val(doc)
     impl = enc.outcome(lambda: rc.obs_rule_test(rule.test(doc)))
+    if enc.enc_val(doc) != doc_before:
+        c.fail("callers_document_unchanged", "Rule.test() modified the caller's document")
+        doc = enc.dec_val(doc_before)
     from props.c01 import has_pct
     sensitive = has_pct(doc) or "%" in repr(term)
     c.ask(["test", term, enc.enc_val(doc)], impl, "test", cmp_coarse_test if sensitive else None)
@@ -78,8 +82,14 @@ CORPUS = [
 def generate(rng, n, tier, cast_p=0.0):
     g = Gen(rng, pct_strings=True, max_depth=3)
     cases = [make_case(rr, doc) for rr, doc in CORPUS if (cast_p > 0 or not rr["cast"])]
+    import terms as _t
     while len(cases) < n:
         rr = rc.gen_rule(g, cast_p=cast_p)
-        doc = gen_doc_for_parts(g, rr["parts"])
+        doc = gen_doc_for_parts(g, rr["parts"], leaf=rc.cast_leaf(g) if rr["cast"] else None)
+        if not rr["cast"] and rng.random() < 0.3:
+            # condition leaves that mostly hold on the selected nodes
+            sel = [v for v, _ in _t.walk(rr["parts"], doc)][:4]
+            if sel:
+                rr["cond"] = rc.gen_true_biased_tree(g, sel, rng.choice([1, 2, 2, 3]))
         cases.append(make_case(rr, doc))
     return cases
